@@ -1,6 +1,7 @@
 package eng
 
 import (
+	"encoding/base32"
 	"encoding/json"
 	"fmt"
 	"math/rand"
@@ -524,6 +525,31 @@ func (r *idxRun) runSpec(h *hspec, rng *rand.Rand) {
 			c.Violate("C14", "hash-format", "hash %q of index %s is not 6 base32 characters", hs, showIdx(first[i]))
 			break
 		}
+	}
+	// ---- encoding half of HashIndex (Model/HashEnc.lean): the model computes the hash from the uint64 that
+	// hashstructure.Hash returns; the implementation's output is what the real HashIndex returned
+	{
+		us := make([]string, 0, n)
+		for _, ix := range first {
+			us = append(us, strconv.FormatUint(fullHash(ix), 10))
+		}
+		if n > 0 {
+			c.Emit("idx.enc "+rawList(us, ";"), rawList(hashes, ";"))
+			c.Stats["enc.real-hashindex"] += int64(n)
+		}
+		// boundary values no generated index reaches (short decimal renderings → '=' padding, digit
+		// boundaries of the fourth byte): the model against the three library calls HashIndex makes, in
+		// the order the regenerated fact `hashIndexShape` pins — a check of the model, not of furiko
+		bnd := []uint64{0, 7, 9, 10, 42, 99, 100, 123, 999, 1000, 1003, 1004, 1007, 1008, 1009, 9999, 10000, 18446744073709551615,
+			uint64(rng.Intn(10000)), rng.Uint64(), rng.Uint64() >> uint(rng.Intn(64))}
+		bu, bh := []string{}, []string{}
+		for _, u := range bnd {
+			e := base32.StdEncoding.EncodeToString([]byte(strconv.FormatUint(u, 10)))
+			bu = append(bu, strconv.FormatUint(u, 10))
+			bh = append(bh, strings.ToLower(e[:6]))
+		}
+		c.Emit("idx.enc "+rawList(bu, ";"), rawList(bh, ";"))
+		c.Stats["enc.library-boundary"] += int64(len(bnd))
 	}
 	for _, i := range samplePositions(rng, n, 6) {
 		ix := first[i]
